@@ -1064,6 +1064,41 @@ def r_declare(ctx):
                    "what is declared is stored exactly once on every path" if ok else
                    ("the declaration method rebinds `self.%s`" % attr if rebinds else
                     "a declared %s is stored %s times depending on the path: it can be silently dropped (or duplicated)" % (kind, sorted(normal))), loc(fn, fn))
+    # what a public declaration method stored stays stored: outside the constructor nothing empties, rebinds or removes from such a container
+    for (cname, attr), kind in sorted(conts.items()):
+        if "class" in attr:
+            continue
+        c = repo.cls(cname)
+        public_feeders = [fn.name for fn in c.methods.values() if not fn.name.startswith("_") and fn.name != "add_partition_constraints"
+                          and any(isinstance(x, ast.Call) and call_name(x) == "append" and dotted(x.func.value) == "self." + attr for x in ast.walk(fn))]
+        if not public_feeders:
+            continue
+        drops = []
+        for fn in c.methods.values():
+            if fn.name == "__init__":
+                continue
+            for nd in ast.walk(fn):
+                tgt = None
+                if isinstance(nd, (ast.Assign, ast.AnnAssign)):
+                    for t in (nd.targets if isinstance(nd, ast.Assign) else [nd.target]):
+                        base = t.value if isinstance(t, ast.Subscript) else t
+                        if dotted(base) == "self." + attr:
+                            tgt = nd
+                elif isinstance(nd, ast.Delete):
+                    for t in nd.targets:
+                        base = t.value if isinstance(t, ast.Subscript) else t
+                        if dotted(base) == "self." + attr:
+                            tgt = nd
+                elif isinstance(nd, ast.Call) and isinstance(nd.func, ast.Attribute) and nd.func.attr in ("clear", "pop", "remove") and dotted(nd.func.value) == "self." + attr:
+                    tgt = nd
+                if tgt is not None:
+                    drops.append((fn, tgt))
+        n += 1
+        ctx.ob("R-DECLARE", "%s.%s::declared objects stay declared" % (cname, attr), not drops,
+               "outside the constructor nothing empties or rebinds the container fed by %s" % ", ".join(sorted(public_feeders)) if not drops else
+               "`%s` in %s.%s drops what the public method %s stored: a declared %s never reaches the solver" % (
+                   norm_stmt(common.stmt_of(drops[0][1]))[:60], cname, drops[0][0].name, sorted(public_feeders)[0], kind),
+               loc(drops[0][0], drops[0][1]) if drops else c.module.rel)
     # public set_* / add_* methods of the same classes that store nothing themselves must hand what they are given to exactly one declaration method
     direct = {}
     for (cname, attr), kind in conts.items():
